@@ -1,33 +1,33 @@
-import MuscleModel.Containers.QProofs
+import MuscleModel.Containers.QStep
 
 /-!
 # C16 — Queue behaves as an ideal double-ended sequence under every operation sequence
 
-Property theorems only (lemmas: `Containers/QProofs.lean`; model of the C++ class: `Containers/QRing.lean`;
-ideal sequence: `Containers/QSpec.lean`).  `Ring` is the private state of `muscle::Queue` (slot array, head,
-tail, count, which buffer is in use, the idle inline buffer); `Ring.abs` is what an observer sees through
-`operator[]`; `Inv` is the representation invariant between public calls; `Clean` says that every slot
-outside the window (and the idle inline buffer) holds the default item.  All theorems hold for every item
-configuration `c` (default item, content of uninitialised memory, trivial/owning, inline capacity `sq`).
-The tie to the C++ code is the correspondence run of engine `q` (all 55 op kinds, not only the proved ones).
+Property theorems only (lemmas: `Containers/QProofs.lean`, `QProofs2.lean`, `QStep.lean`; model of the C++ class:
+`Containers/QRing.lean`; ideal sequence: `Containers/QSpec.lean`).  `Ring` is the private state of `muscle::Queue`
+(slot array, head, tail, count, which buffer is in use, the idle inline buffer); `Ring.abs` is what an observer sees
+through `operator[]`; `Good` = the representation invariant `Inv` between public calls and, for owning item types,
+`Clean`: every slot outside the window and the idle inline buffer hold the default item.  All theorems hold for
+every item configuration `c` (default item, content of uninitialised memory, trivial/owning, inline capacity `sq`).
+The tie to the C++ code (as of /repo c9f3294: findings F22, C16-D1..D6 repaired) is the correspondence run of engine `q`.
 
-Proved for all states satisfying `Good` (= `Inv` and, for owning item types, `Clean`), hence — by
-`history_refines_partial` — for all histories from a fresh Queue, for the 15 op kinds of `Op`:
-AddTail, AddHead, RemoveHead, RemoveTail, GetItemAt, ReplaceItemAt, Clear with/without release,
-EnsureSize(n, setNumItems, extra, allowShrink) on ALL paths (code as of /repo 97f299d: shrink guard,
-reallocation to the heap or back into the inline buffer, growth in place, shrinking), RemoveHeadMulti,
-RemoveTailMulti, AddTailMulti and AddHeadMulti from an array / another queue, operator=, CopyFrom, Swap;
-plus Normalize (already-contiguous and rotation branches).  `Clean` (no stale item outside the window) is
-part of the invariant that every one of these operations is proved to preserve.
+COVERED by the refinement theorems (53 of the 66 op kinds of engine `q`): `Op` (one Queue, 27 kinds) —
+AddTail/AddHead (also the forms taking an item of the Queue, and no-arg AddTailAndGet/AddHeadAndGet followed by a write:
+`addTailRaw_write`), RemoveHead/RemoveTail, GetItemAt and the head/tail accessors, ReplaceItemAt, Clear(release),
+EnsureSize/ShrinkToFit on all paths, RemoveHeadMulti/RemoveTailMulti, AddTailMulti/AddHeadMulti/InsertItemsAt from an array,
+from another Queue, from the Queue ITSELF and from a pointer into its own array, operator=, CopyFrom, Swap, RemoveItemAt,
+InsertItemAt, Sort (as a stable sort), Normalize (all branches), ==/StartsWith/EndsWith; `BOp` (several Queues, 6 kinds) —
+any of the above with another register as the Queue argument, SwapContents (inline/inline, inline/heap via
+SwapContentsAux, heap/heap), move assignment (Plunder), move construction, copy construction.
 
-NOT proved (validated by the correspondence run and the `std::deque` oracle only) — full statement:
+NOT covered (correspondence run and `std::deque` oracle only) — the exact gap of every theorem named `_partial`:
+the 13 op kinds that search or reorder by item VALUE: IndexOf, LastIndexOf, ReverseItemOrdering,
+InsertItemAtSortedPosition (2 forms), RemoveAllInstancesOf (2 forms), RemoveFirstInstanceOf/RemoveLastInstanceOf
+(4 forms), RemoveSortedDuplicateItems, RemoveDuplicateItems.  Full statement still owed:
   `∀ q, Good c q → ∀ op : AnyOp, Good c (step q op).1 ∧ abs (step q op).1 = (Spec.step (abs q) op).1 ∧ results equal`
-  for `op` ranging also over RemoveItemAt (the two shifting loops are proved: `shiftFromHead_spec`,
-  `shiftFromTail_spec` in QProofs.lean), InsertItemAt, InsertItemsAt, the self-aliased multi-item forms,
-  ReverseItemOrdering, Sort (as a stable sort), InsertItemAtSortedPosition, RemoveAllInstancesOf/First/Last,
-  RemoveSortedDuplicateItems/RemoveDuplicateItems, SwapContents, Plunder, the copy branch of Normalize,
-  the no-argument AddTailAndGet()/AddHeadAndGet().  For SwapContents/Plunder, the self-aliased forms and
-  InsertItemsAt with a pointer into the own array the model follows the REPAIRED code (findings C16-D3..D6).
+with `AnyOp` also ranging over those 13.  (`lexicographicalCompare`, i.e. `<`, is a function of the two contents in
+the model, so there is nothing to refine.)  The no-argument AddTailAndGet()/AddHeadAndGet() WITHOUT a following write is
+outside `Op` on purpose: for trivial item types the API leaves the item unspecified; `raw_add_exposed` says what is known.
 -/
 
 namespace Muscle.Props.C16
@@ -61,37 +61,40 @@ theorem step_kernels (head idx size : Nat) (hi : idx + 1 < size) (hh : head < si
 theorem empty_ok : Inv c (Ring.empty c) ∧ (Ring.empty c).abs c = [] :=
   ⟨inv_empty c, abs_of_count_zero c _ rfl⟩
 
-/-- Every proved operation keeps the invariant (including, for owning item types, "every slot outside the
-    window and the idle inline buffer hold the default item"), commutes with the abstraction to the ideal
-    sequence and returns the same result.
-    (`_partial`: covers the 15 op kinds of `Op` — AddTail, AddHead, RemoveHead, RemoveTail, GetItemAt,
-    ReplaceItemAt, Clear(release), EnsureSize(n, setNum, extra, allowShrink) on all paths, RemoveHeadMulti,
-    RemoveTailMulti, AddTailMulti and AddHeadMulti (array / other queue), operator=, CopyFrom, Swap;
-    see the file comment for the op kinds that are not covered.) -/
+/-- Every covered operation on one Queue, from every `Good` state, yields a `Good` state whose abstraction is the ideal
+    sequence's result, and returns the ideal result.  (`_partial`: 27 op kinds, see the file comment for the 13 missing.) -/
 theorem ring_refines_partial (q : Ring α) (h : Good c q) (op : Op α) :
     Good c (q.step c op).1 ∧ (q.step c op).1.abs c = (Spec.step c.dflt c.junk (q.abs c) op).1 ∧
     (q.step c op).2 = (Spec.step c.dflt c.junk (q.abs c) op).2 :=
   step_refines c q h op
 
-/-- For every finite history of (proved) operations on a fresh Queue: the final content and every
-    result along the way are those of the ideal sequence, and the final state is `Good`. -/
-theorem history_refines_partial (ops : List (Op α)) :
-    Good c ((Ring.empty c).exec c ops).1 ∧
-    ((Ring.empty c).exec c ops).1.abs c = (Spec.exec c.dflt c.junk [] ops).1 ∧
-    ((Ring.empty c).exec c ops).2 = (Spec.exec c.dflt c.junk [] ops).2 := by
-  have h := exec_refines c (Ring.empty c) (good_empty c) ops
-  rw [(empty_ok c).2] at h
+/-- The same for calls that involve two Queues: another register as the Queue argument, SwapContents, move assignment,
+    move and copy construction.  (`_partial`: the single-Queue calls inside are those of `Op`.) -/
+theorem bank_refines_partial (b : Nat → Ring α) (h : ∀ i, Good c (b i)) (op : BOp α) :
+    (∀ i, Good c ((bankStep c b op).1 i)) ∧
+    (fun i => ((bankStep c b op).1 i).abs c) = (Spec.bankStep c.dflt c.junk (fun i => (b i).abs c) op).1 ∧
+    (bankStep c b op).2 = (Spec.bankStep c.dflt c.junk (fun i => (b i).abs c) op).2 :=
+  bankStep_refines c b h op
+
+/-- For every finite history of covered operations on any number of fresh Queues: the final contents and every result along
+    the way are those of the ideal sequences, and every Queue ends `Good`.  (`_partial`: same gap.) -/
+theorem history_refines_partial (ops : List (BOp α)) :
+    (∀ i, Good c ((bankExec c (fun _ => Ring.empty c) ops).1 i)) ∧
+    (fun i => ((bankExec c (fun _ => Ring.empty c) ops).1 i).abs c) = (Spec.bankExec c.dflt c.junk (fun _ => []) ops).1 ∧
+    (bankExec c (fun _ => Ring.empty c) ops).2 = (Spec.bankExec c.dflt c.junk (fun _ => []) ops).2 := by
+  have h := bankExec_refines c (fun _ => Ring.empty c) (fun _ => good_empty c) ops
+  simp only [(empty_ok c).2] at h
   exact h
 
-/-- Failure is reported exactly when the ideal operation is undefined (empty sequence, bad index), and a
-    failing call changes nothing — not even the hidden state.  (`_partial`: the 15 op kinds of `Op`.) -/
-theorem failure_exact_partial (q : Ring α) (op : Op α) :
+/-- Failure is reported exactly when the ideal operation is undefined (empty sequence, bad index), and a failing call
+    changes nothing — not even the hidden state.  (`_partial`: same gap.  The hypothesis `Good` is used for `Normalize`
+    only, whose "ok" is its post-condition; every other case holds for arbitrary states.) -/
+theorem failure_exact_partial (q : Ring α) (h : Good c q) (op : Op α) :
     ((q.step c op).2 = .err ↔ Spec.undefined (q.abs c) op) ∧ ((q.step c op).2 = .err → (q.step c op).1 = q) :=
-  step_failure c q op
+  step_failure c q h op
 
-/-- What an operation shows afterwards depends only on what was visible before: two Queues with the same
-    visible content (whatever their capacity, head offset and hidden slots) stay indistinguishable.
-    (`_partial`: the 15 op kinds of `Op`.) -/
+/-- What an operation shows afterwards depends only on what was visible before: two Queues with the same visible content
+    (whatever their capacity, head offset and hidden slots) stay indistinguishable.  (`_partial`: same gap.) -/
 theorem hidden_state_invisible_partial (q q' : Ring α) (h : Good c q) (h' : Good c q') (e : q.abs c = q'.abs c) (op : Op α) :
     (q.step c op).1.abs c = (q'.step c op).1.abs c ∧ (q.step c op).2 = (q'.step c op).2 := by
   have a := step_refines c q h op
@@ -99,17 +102,15 @@ theorem hidden_state_invisible_partial (q q' : Ring α) (h : Good c q) (h' : Goo
   rw [a.2.1, a.2.2, b.2.1, b.2.2, e]
   exact ⟨rfl, rfl⟩
 
-/-- `EnsureSize(n, false, extra, allowShrink)` never changes the content and (without shrink) leaves room for
-    `n` items — for every `n` (no hypothesis since the fix 97f299d of findings C16-D1/D2). -/
+/-- `EnsureSize(n, false, extra, allowShrink)` never changes the content and (without shrink) leaves room for `n` items. -/
 theorem reserve_id (q : Ring α) (h : Good c q) (n extra : Nat) (shrink : Bool) :
     Good c (q.ensureSizeAux c n false extra shrink) ∧ (q.ensureSizeAux c n false extra shrink).abs c = q.abs c ∧
     (shrink = false → n ≤ (q.ensureSizeAux c n false extra shrink).size) := by
   have := ensure_nosn c q h.1 h.2 n extra shrink
   exact ⟨⟨this.1, this.2.2.2.2⟩, this.2.1, this.2.2.2.1⟩
 
-/-- `EnsureSize(n, true, extra, allowShrink)` on every path (reallocation to the heap or back into the inline
-    buffer, growth in place, shrinking, shrink guard): the content becomes the old content cut to `n` items or
-    padded with DEFAULT items — never with old ones (findings F22, C16-D1, C16-D2 cannot return). -/
+/-- `EnsureSize(n, true, extra, allowShrink)` on every path: the content becomes the old content cut to `n` items or padded
+    with DEFAULT items — never with old ones (findings F22, C16-D1, C16-D2 cannot return). -/
 theorem set_size_exact (q : Ring α) (h : Good c q) (n extra : Nat) (shrink : Bool) :
     Good c (q.ensureSizeAux c n true extra shrink) ∧
     (q.ensureSizeAux c n true extra shrink).abs c =
@@ -118,19 +119,40 @@ theorem set_size_exact (q : Ring α) (h : Good c q) (n extra : Nat) (shrink : Bo
   refine ⟨⟨e1, e3⟩, ?_⟩
   rw [e2]; simp [Spec.ensureSize]
 
-/-- `Normalize()` is the identity on the content and leaves the items contiguous.
-    (`_partial`: the already-contiguous case and the rotation branch `2*count > size`; the copy branch
-    `2*count ≤ size` is covered by the correspondence run only.) -/
-theorem normalize_id_partial (q : Ring α) (h : Inv c q) (hb : q.isNormalized = true ∨ ¬ (q.count * 2 ≤ q.size)) :
-    Inv c (q.normalize c) ∧ (q.normalize c).abs c = q.abs c ∧ (q.normalize c).isNormalized = true :=
-  normalize_rot c q h hb
+/-- `Normalize()` is the identity on the content, leaves the items contiguous and keeps the invariant — in every branch
+    (already contiguous, copy into the free middle when `2*count ≤ size`, rotation otherwise). -/
+theorem normalize_id (q : Ring α) (h : Good c q) :
+    Good c (q.normalize c) ∧ (q.normalize c).abs c = q.abs c ∧ (q.normalize c).isNormalized = true :=
+  normalize_refines c q h
 
-/-- Owning item types (`IsPerItemClearNecessary()`): no stale item survives outside the window, whatever
-    (proved) operation is applied — vacated slots are reset, new arrays and the idle inline buffer are clean.
-    (`_partial`: the 15 op kinds of `Op`.) -/
-theorem no_stale_partial (hcl : c.clear = true) (q : Ring α) (h : Inv c q) (hC : Clean c q) (op : Op α) :
-    Clean c (Ring.empty c) ∧ Clean c (q.step c op).1 :=
-  ⟨clean_empty c hcl, (step_refines c q ⟨h, fun _ => hC⟩ op).1.2 hcl⟩
+/-- `SwapContents(that)`: each Queue ends up with exactly the other one's items and both stay `Good` — for inline/inline,
+    inline/heap (SwapContentsAux) and heap/heap pairs.  For owning item types `Good` includes that the inline slots handed
+    over by SwapContentsAux hold the default item afterwards (finding C16-D3 cannot return). -/
+theorem swap_contents_exact (a b : Ring α) (ha : Good c a) (hb : Good c b) :
+    Good c (swapContents c a b).1 ∧ Good c (swapContents c a b).2 ∧
+    (swapContents c a b).1.abs c = b.abs c ∧ (swapContents c a b).2.abs c = a.abs c :=
+  swapContents_refines c a b ha hb
+
+/-- Move construction / assignment (`Plunder`): the target has exactly the source's items, the source is empty, both `Good`. -/
+theorem plunder_exact (me rhs : Ring α) (h : Good c me) (hr : Good c rhs) :
+    Good c (plunder c me rhs).1 ∧ Good c (plunder c me rhs).2 ∧
+    (plunder c me rhs).1.abs c = rhs.abs c ∧ (plunder c me rhs).2.abs c = [] :=
+  plunder_refines c me rhs h hr
+
+/-- The item handed out by the no-argument `AddTailAndGet()`: the Queue is exactly as after `AddTail(x)` for the value `x`
+    the slot happened to hold; for owning item types `x` is the default item (no stale item can be handed out), for
+    trivial item types it is unspecified (documented). -/
+theorem raw_add_exposed (q : Ring α) (h : Good c q) :
+    (∃ x, q.addTailRaw c = q.addTail c x ∧ (c.clear = true → x = c.dflt)) ∧
+    (∃ x, q.addHeadRaw c = q.addHead c x ∧ (c.clear = true → x = c.dflt)) :=
+  ⟨⟨_, addTailRaw_eq c q, fun hcl => addTailRaw_default c hcl q h⟩, ⟨_, addHeadRaw_eq c q, fun hcl => addHeadRaw_default c hcl q h⟩⟩
+
+/-- Owning item types (`IsPerItemClearNecessary()`): no stale item survives outside the window or in the idle inline
+    buffer, whatever covered operation is applied to whatever Queues — including the slots vacated by SwapContentsAux,
+    Plunder and Clear(true).  (`_partial`: same gap.) -/
+theorem no_stale_partial (hcl : c.clear = true) (b : Nat → Ring α) (h : ∀ i, Inv c (b i) ∧ Clean c (b i)) (op : BOp α) :
+    Clean c (Ring.empty c) ∧ ∀ i, Clean c ((bankStep c b op).1 i) :=
+  ⟨clean_empty c hcl, fun i => ((bankStep_refines c b (fun j => ⟨(h j).1, fun _ => (h j).2⟩) op).1 i).2 hcl⟩
 
 /-! Non-vacuity: a concrete history drives a Queue with inline capacity 3 through a reallocation and a
 wrapped window; the hypotheses of the theorems above are met by reachable states. -/
@@ -155,5 +177,19 @@ example : ((Ring.empty cfgI).step cfgI .removeHead).2 = Res.err := by decide
 -- … and a reachable clean state of an owning type with hidden slots, where growing in place is possible
 example : let q := ((Ring.empty cfgC).exec cfgC [.addTail 1, .addTail 2, .removeTail]).1
     q.kind ≠ .null ∧ 3 ≤ q.size ∧ q.count < 3 ∧ (q.ensureSizeAux cfgC 3 true 0 false).abs cfgC = [1, 0, 0] := by decide
+
+-- the new op families compute, on one Queue …
+def hist3 : List (Op Nat) :=
+  [.addTailMulti [1, 2, 3, 4, 5, 6], .removeHead, .removeHead, .addTail 7, .addTail 8, .removeItemAt 1, .insertItemAt 2 9,
+   .insertItemsOwn 1 3 2, .addHeadSelf 0 2, .sort (fun a b => a < b) 1 100, .normalize, .removeItemAt 50]
+example : ((Ring.empty cfgC).exec cfgC hist3).1.abs cfgC = (Spec.exec 0 77 ([] : List Nat) hist3).1 ∧
+    ((Ring.empty cfgC).exec cfgC hist3).1.abs cfgC = [3, 3, 5, 6, 6, 6, 7, 7, 8, 9] ∧
+    ((Ring.empty cfgC).exec cfgC hist3).2.getLast? = some Res.err := by decide
+-- … and on several: an inline Queue swaps with a heap Queue (SwapContentsAux), then is moved from
+def bhist : List (BOp Nat) :=
+  [.on 0 (.addTailMulti [1, 2]), .on 1 (.addTailMulti [10, 11, 12, 13, 14]), .swapContents 0 1, .fromQ 2 0 (fun xs => .insertItemsAt 0 xs true),
+   .move 1 2, .on 0 (.ensureSize 1 true 0 true), .on 0 (.ensureSize 3 true 0 false)]
+example : let r := (bankExec cfgC (fun _ => Ring.empty cfgC) bhist).1
+    (r 0).abs cfgC = [10, 0, 0] ∧ (r 1).abs cfgC = [10, 11, 12, 13, 14] ∧ (r 2).abs cfgC = [] := by decide
 
 end Muscle.Props.C16
